@@ -27,6 +27,8 @@ ValueOf(c) == CASE c.args = "none" -> "v_none" [] c.args = "posdict" -> "v_dict"
 ErrOf(c) == CASE c.beh = "typed" -> "typed_2001"       \* registered class, code 2001, message, data
               [] c.beh = "typednull" -> "typed_2001_null"   \* the same with data null (null is not absent)
               [] c.beh = "unreg" -> "base_777"         \* no class registered for 777: the client's base class
+              [] c.beh = "typedsrv" -> "typed_m32001"  \* a user class registered for a code inside the reserved server range
+              [] c.beh = "unregsrv" -> "base_m32050"   \* an unregistered code inside that range: the client's base class
               [] c.beh = "exc"   -> "server_32000"     \* any other exception: ServerError, no data
               [] OTHER -> "na"
 Calls == SelectSeq(prog.calls, LAMBDA c : ~c.notif)
